@@ -23,6 +23,8 @@ func runC19(p *Program, r *Report) {
 	ruleR193(p, r)
 	r.Rule("R19.4", "E3", 2, "configuration validation: a default value is validated by the encoder of the column's type id before the setting is accepted, and is only accepted together with the 'default' policy")
 	ruleR194(p, r)
+	r.Rule("R19.6", "E2", 3, "per-column state stays per column: the context a row decoder hands to the column subscribers is the row's own context, never the context the previous column's subscribers returned (which carries that column's 'decrypted' mark and setting)")
+	ruleR196(p, r)
 	r.Rule("R19.5", "E3", 8, "a value that was not revealed goes through the policy: in every type encoder, the exit of Encode that hands the incoming bytes back unchanged is reached on the 'not decrypted' edge only after EncodeOnFail answered 'no replacement, no error'")
 	ruleR195(p, r)
 }
@@ -394,8 +396,23 @@ func ruleR195(p *Program, r *Report) {
 						valRet = true
 					}
 				}
+				// the replacement is told from 'no replacement' by a nil test (an empty default is a replacement)
+				nilTest := false
+				if v != nil {
+					for _, i := range allIfs(fn) {
+						if _, nonNil, isN := nilBranches(i, v); isN {
+							for _, ret := range returnsOf(fn) {
+								if retValue(ret, 1) == ssa.Value(v) && nonNil.Dominates(ret.Block()) {
+									nilTest = true
+								}
+							}
+						}
+					}
+				}
 				if !errOK {
 					why = "an error of the policy is not returned"
+				} else if valRet && !nilTest {
+					why = "the policy's replacement is recognised by its length, not by being non-nil: an empty default value is treated as 'no replacement'"
 				} else if !valRet {
 					why = "the replacement value of the policy is not returned"
 				} else {
@@ -424,4 +441,42 @@ func init() {
 	mut("C19", "retyping helper accepts unregistered ids", "decryptor/postgresql/type_conversion.go", "	if _, ok := pgsqlEncoders[dataTypeID]; !ok {\n		return 0, false\n	}\n", "	_ = pgsqlEncoders\n", "R19.3", "registered encoder")
 	mut("C19", "default value no longer validated", "encryptor/base/config/encryptionSettings.go", "		if err = dataTypeEncoder.ValidateDefaultValue(s.DefaultDataValue); err != nil {\n			return fmt.Errorf(\"invalid default value: %w\", err)\n		}", "		_ = dataTypeEncoder", "R19.4", "validated")
 	mut("C19", "text encoder skips the policy", "decryptor/postgresql/types/text.go", "	if !base.IsDecryptedFromContext(ctx) {\n		ctx, value, err := t.EncodeOnFail(ctx, format)\n		if err != nil {\n			return ctx, nil, err\n		} else if value != nil {\n			return ctx, value, nil\n		}\n	}\n\n	return ctx, data, nil\n}\n\n// Decode", "	if !base.IsDecryptedFromContext(ctx) {\n		ctx, value, err := t.EncodeOnFail(ctx, format)\n		if err != nil {\n			return ctx, data, nil\n		} else if value != nil {\n			return ctx, value, nil\n		}\n	}\n\n	return ctx, data, nil\n}\n\n// Decode", "R19.5", "failure policy")
+}
+
+func ruleR196(p *Program, r *Report) {
+	for _, spec := range []string{"decryptor/mysql.(*Handler).processTextDataRow", "decryptor/mysql.(*Handler).processBinaryDataRow", "decryptor/postgresql.(*PgProxy).handleQueryDataPacket"} {
+		fn := p.Func(spec)
+		if fn == nil || fn.Blocks == nil {
+			r.Anchor("R19.6", spec)
+			continue
+		}
+		ctx := paramByName(fn, "ctx")
+		n := 0
+		for _, c := range callsNamed(fn, "onColumnDecryption") {
+			n++
+			a := plainArgs(c)[0]
+			ok := a == ssa.Value(ctx)
+			if !ok {
+				// a context derived once, outside the column loop, is fine; one that merges a previous column's result is not
+				if _, isPhi := a.(*ssa.Phi); !isPhi {
+					derived := true
+					for v := range backClosure(a) {
+						if ex, isEx := v.(*ssa.Extract); isEx && ex.Tuple == ssa.Value(c) {
+							derived = false
+						}
+					}
+					ok = derived
+				}
+			}
+			r.Check(ok, "R19.6", fnName(fn), "column subscribers get the row context", p.Pos(c.Pos()), "onColumnDecryption(ctx, ...) with the function's own ctx", "the context returned for one column is passed on to the next column: its 'decrypted' mark and column setting leak, so a later column that was not revealed skips its failure policy or is described with the wrong type")
+		}
+		if n == 0 {
+			r.Bad("R19.6", fnName(fn), "column subscribers get the row context", p.Pos(fn.Pos()), "no onColumnDecryption call found; the row decoder has changed shape")
+		}
+	}
+}
+
+func init() {
+	mut("C19", "mysql text row reuses the previous column's context", "decryptor/mysql/response_proxy.go", "		decrCtx, value, err = handler.onColumnDecryption(ctx, i, value, false, fields[i])", "		ctx, value, err = handler.onColumnDecryption(ctx, i, value, false, fields[i])\n		decrCtx = ctx", "R19.6", "row context")
+	mut("C19", "empty default treated as no replacement", "decryptor/postgresql/types/text.go", "		} else if value != nil {\n			return ctx, value, nil\n		}\n	}\n\n	return ctx, data, nil\n}\n\n// Decode", "		} else if len(value) > 0 {\n			return ctx, value, nil\n		}\n	}\n\n	return ctx, data, nil\n}\n\n// Decode", "R19.5", "failure policy")
 }
